@@ -128,6 +128,10 @@ class Values:
                 out.append(formulas.random_formula(r))
             if self.nist_names:
                 out += r.sample(self.nist_names, min(len(self.nist_names), max(1, n // 3)))
+            # two long formulas that agree in their first 40+ characters, next to each other and then the first again: a lookup that identifies a
+            # compound by a truncated or hashed form of its name mixes them up
+            stem = "Fe0.70Cr0.18Ni0.08Mn0.02Si0.01C0.0004P0.0002S0.0001"
+            out += [stem + "Mo0.01", stem + "Mo0.09", stem + "Mo0.01", "Si0.9999995B0.0000005"]
             return out
         if p == "compoundstring":
             return (r.sample(self.nist_names, min(len(self.nist_names), max(1, n - 4))) if self.nist_names else []) + [None, "", "water, liquid", "H2O", "y" * 300]
@@ -154,7 +158,7 @@ class Values:
         out.append(calls.crystal_user(cell, atoms))
         # the same cell with one unusable atom that is NOT the first one (an element without form factors, or no element at all): the call must
         # fail as a whole - what the earlier atoms contributed must not come back with the error
-        bad = list(atoms) + [(r.choice([99, 0, 130, -1]), 1.0, r.random(), r.random(), r.random())]
+        bad = list(atoms) + [(r.choice([99, 0, 130, -1, 5000]), r.choice([1.0, 0.0]), r.random(), r.random(), r.random())]     # also as a vacant site (occupancy 0)
         if len(bad) > 2 and r.random() < 0.5:
             k = r.randrange(1, len(bad) - 1)
             bad[k], bad[-1] = bad[-1], bad[k]
